@@ -357,6 +357,22 @@ func feGenLongQueue(r *rng, holdMs int, variant int) *feCase {
 // small closure timeout; the caller's context is cancelled while the first items deploy / execute and all the others are
 // queued.  The time to return after the cancellation is bounded by grace periods + closure timeouts + the deployments in
 // flight - it must not grow with the number of queued items, and no queued item may begin (deploy) after the cancel.
+// cancel-wide: as cancel-queue with MANY slots: every slot holder is deploying (600 ms, not interruptible) when the caller cancels.
+// They all wind down together: the time to return is one deployment, not one deployment per slot holder (items that were
+// handed a slot must have begun - nothing may make them take turns).
+func feGenCancelWide(r *rng) *feCase {
+	c := &feCase{ClosureMs: 100, Class: "cancel-wide", DelayMode: "hang", ParMode: "literal", DeployHard: true}
+	c.Par = 26 + r.intn(6)
+	c.DeployMs = 600
+	n := c.Par + 8
+	for j := 0; j < n; j++ {
+		c.Items = append(c.Items, feItem{Key: fmt.Sprintf("w%d", j), I: int64(r.intn(1000)), Outcome: "success", DelayMs: 60000})
+	}
+	c.CloseAfter = 200 + r.intn(300)
+	c.EstimatedMs = c.CloseAfter
+	return c
+}
+
 func feGenCancelQueue(r *rng, tier string) *feCase {
 	c := &feCase{ClosureMs: 100, Class: "cancel-queue", DelayMode: "hang", ParMode: "literal", DeployHard: true}
 	c.Par = 1 + r.intn(3)
@@ -572,6 +588,10 @@ func cmdForeach(args []string) int {
 		}
 	} else {
 		for i := 0; i < nQueue; i++ {
+			if i%3 == 2 {
+				w.emit(execForeachCase(fmt.Sprintf("foreach-wide-%d-%d", c.seed, i), feGenCancelWide(r.fork())))
+				continue
+			}
 			w.emit(execForeachCase(fmt.Sprintf("foreach-queue-%d-%d", c.seed, i), feGenCancelQueue(r.fork(), c.tier)))
 		}
 	}
